@@ -84,6 +84,9 @@ func main() {
 		c.extra["packages_loaded"] = len(p.Pkgs)
 		c.extra["module_functions"] = len(p.Funcs)
 		run(p, c)
+		if c.Tier == "thorough" && os.Getenv("VERIF_REPO") == "" {
+			thoroughExtras(p, c)
+		}
 		return c.Finish()
 	}()
 	os.Exit(code)
